@@ -72,10 +72,12 @@ BuildEv ==
 FileEv ==
   /\ l <= Len(Trace) /\ l' = l + 1 /\ UNCHANGED tid
   /\ \/ E.ev = "FileAdd" /\ FileAdd(E.f, E.c)
+     \/ E.ev = "FileAddFile" /\ FileAddFile(E.f, E.d)
      \/ E.ev = "ImportName" /\ DoImportName(E.f, E.p, E.n)
      \/ E.ev = "ImportAlias" /\ ImportAlias(E.f, E.p, E.n)
      \/ E.ev = "Anon" /\ DoAnon(E.f, E.p)
-  /\ Dirty({E.f})          \* a call on one File says nothing about the others (C09)
+  /\ Dirty(IF \E x \in DOMAIN files : \E i \in DOMAIN files[x].body : files[x].body[i] < 0 THEN AllFiles ELSE {E.f})
+                           \* a call on one File says nothing about the others (C09) - unless Files have been added to Files
   /\ UNCHANGED lastplain    \* ... nor about Render / GoString, which use a File of their own
 
 (* ------------------------------ monitors (C) ----------------------------- *)
@@ -128,7 +130,7 @@ RenderEv ==
         /\ MonCommon(f, refs, bare)
         /\ (E.status = "nil") => MonFile(f, specs, refs, bare)
         /\ (clean[f] # "" /\ clean[f] # E.out) => Report("C08", "system: repeat")
-        /\ (E.status = "nil") => TokensKept({files[f].body[i] : i \in DOMAIN files[f].body}, E.toks)
+        /\ (E.status = "nil") => TokensKept(BodyCells(f), E.toks)
         /\ Resync(f, obsT)
         /\ bound' = [bound EXCEPT ![f] = Bind(@, {<<x.path, x.qual>> : x \in refs}, bare)]
         /\ clean' = [clean EXCEPT ![f] = E.out]
